@@ -181,16 +181,31 @@ def copy_arg(a):
     return a
 
 
+LAST_ARGS = []  # the argument objects actually handed to the last call (aliasing checks)
+LAST_EXC = [None]
+
+
 def apply_op(obj, op):
     """-> list of ints in the model's result format"""
     name, args = op[0], [copy_arg(a) for a in op[1:]]
+    LAST_ARGS[:] = args
+    LAST_EXC[0] = None
     _code, _enc, call, pr = OPS[name]
+    wd = getattr(obj, "_verif_world", None)
+    if wd is not None:
+        wd.transfers = 0
+        wd.watchdog = 3000
     try:
         v = call(obj, *args)
-    except tuple(EXN) as e:
+    except W.Watchdog as e:
+        LAST_EXC[0] = e
+        return [9]
+    except Exception as e:  # noqa: every exception class is an observable
+        LAST_EXC[0] = e
         for cls, code in EXN.items():
             if isinstance(e, cls):
                 return [code]
+        return [8]
     return [0] + pr(v)
 
 
@@ -207,6 +222,10 @@ class ImplRun:
         for k, ri in enumerate(obj_radios):
             try:
                 self.objs.append(make_obj(self.world, ri, k))
+                try:
+                    self.objs[-1]._verif_world = self.world
+                except AttributeError:
+                    pass
                 self.out += [0]
             except RuntimeError:
                 self.objs.append(None)
@@ -327,7 +346,9 @@ def checked_run(model, plus, obj_radios, make_obj, ops, checker):
                 for a, b in e["receivers"]:
                     out += [a, b]
             if verdict is None:
-                verdict = checker.air(k, lg)
+                v = checker.air(k, lg)
+                if v:
+                    verdict = (v[0], v[1], k)
             continue
         obj = impl.objs[cur]
         log.clear()
